@@ -52,6 +52,41 @@ func crafted() []corpus.Seed {
 					}
 				}
 			}
+			// 64-bit size headers with extreme values on every mdat
+			for _, v := range []uint64{1 << 63, ^uint64(0), 1<<63 - 1, 1 << 32, 1 << 40} {
+				es3 := mut.Parse(data)
+				n := 0
+				for _, e := range es3 {
+					if e.Type == "mdat" {
+						v := v
+						e.ForceSize64 = &v
+						n++
+					}
+				}
+				if n > 0 {
+					out = append(out, corpus.Seed{Name: f.Name + "#mdat-largesize-extreme", Kind: "crafted", Data: mut.Serialize(es3)})
+				}
+			}
+			// an mdat whose 64-bit size, read as a signed offset, points back to the preceding box(es)
+			for back := 1; back <= 2; back++ {
+				es3 := mut.Parse(data)
+				n := 0
+				for i, e := range es3 {
+					if e.Type == "mdat" && i >= back {
+						var sum uint64
+						for k := i - back; k < i; k++ {
+							sum += uint64(es3[k].Size())
+						}
+						for _, adj := range []uint64{0, 16} {
+							v := -sum + adj
+							e.ForceSize64 = &v
+							out = append(out, corpus.Seed{Name: f.Name + "#mdat-size-points-back", Kind: "crafted", Data: mut.Serialize(es3)})
+						}
+						n++
+						break
+					}
+				}
+			}
 			// reversed top-level order
 			var rev []*mut.E
 			for i := len(es) - 1; i >= 0; i-- {
